@@ -44,6 +44,7 @@ def _bases(tier: str):
         ("sparse memo keys 5 and 9", b"\x80\x02]q\x05K\x01aq\x09."), ("memo key 1 and 2 in use", b"\x80\x02]q\x01]q\x02\x86."),
         ("text PUT 321987 in use", b"]p321987\n."), ("MEMOIZE after sparse BINPUT", b"\x80\x04]q\x03\x94K\x01a."),
         ("GLOBAL result", b"ccollections\nOrderedDict\n."),
+        ("torch-like state dict (BINPERSID storage)", [d for l, d in __import__("sa.props.c06", fromlist=["_corpus"])._corpus("quick") if l.startswith("torch-like")][0]),
     ]
     out += hand
     if tier == "thorough":
